@@ -3,7 +3,7 @@ CONSTANTS MaxNode = 3
           MaxBlock = 2
           MaxReq = 1
           MaxSess = 1
-          D = 4
+          D = 5
           Places <- PlacesNone
           SessChoices = {0}
           ReqChoices <- ReqPair
